@@ -250,3 +250,15 @@ CHECKS["C08"] = dict(
     assumptions=["file-system model; MD5/SHA-256 uninterpreted (real function on concrete inputs)", "bulk content of big parts is abstract (size only)"],
     outside=["UploadPartCopy data path", "ListMultipartUploads markers", "checksum variants", "more than three listed parts / two uploads"],
 )
+
+CHECKS["C09"] = dict(
+    explanation="posix versioning code (PutObject, CompleteMultipartUpload, DeleteObject with and without id, createObjVersion, GetObject by id, "
+                "ListObjectVersions/WalkVersions) on the file-system model: programs of put / multipart-put / delete-marker / delete-by-id on one key of a "
+                "versioning-enabled bucket, from an absent key or an object that predates versioning (null version), with symbolic bodies, against a "
+                "reference history: distinct new ids, every version byte-exact by id, newest version (or missing) by key, listing = history, newest first, one latest.",
+    harnesses=[
+        dict(name="H09-program", entry="backend/posix.VfVersions", reach=["program-done"], **_FS),
+    ],
+    assumptions=["file-system model; ULIDs are fresh increasing ids"],
+    outside=["programs longer than 2 (quick) / 3 (thorough) operations", "suspend/enable alternation", "paging of version listings", "copy onto a versioned key"],
+)
